@@ -14,6 +14,7 @@ pub mod c13;
 pub mod c14;
 pub mod c15;
 pub mod c16;
+pub mod c17;
 pub mod c18;
 
 use crate::{
@@ -56,6 +57,9 @@ pub fn run(prop: &str, tier: Tier, budget: f64, out: &mut Outcome) -> Result<(),
     if prop == "C14" {
         return c14::run(tier, budget, out);
     }
+    if prop == "C17" {
+        return c17::run(tier, budget, out);
+    }
     if prop == "C18" {
         return c18::run(tier, budget, out);
     }
@@ -84,6 +88,7 @@ pub fn replay(path: &str) -> i32 {
         Some("bytes") => return c06::replay(&doc),
         Some("codec") => return c15::replay(&doc),
         Some("scene") => return c18::replay(&doc),
+        Some("conditioner") | Some("loopback") => return c17::replay(&doc),
         Some("protocol") => return c14::replay(&doc),
         _ => {}
     }
